@@ -71,6 +71,12 @@ inductive Lit where
   | err (e : PyExc)
   deriving Repr, DecidableEq
 
+/-- `labels.append(label)` in front of what the rest of the loop finds; one more label read -/
+def Lit.cons (label : Label) : Lit × Nat → Lit × Nat
+  | (.fin ls e, r) => (.fin (label :: ls) e, r + 1)
+  | (.ptr ls o b, r) => (.ptr (label :: ls) o b, r + 1)
+  | (.err e, r) => (.err e, r + 1)
+
 /-- the literal-label loop of `_decode_labels_at_offset` (`incoming.py:397-411,442`); second
 component: number of labels sliced.  `fuel` only makes the recursion structural. -/
 def lit (cfg : Cfg) (buf : Bytes) : (fuel : Nat) → (off : Nat) → Lit × Nat
@@ -85,11 +91,7 @@ def lit (cfg : Cfg) (buf : Bytes) : (fuel : Nat) → (off : Nat) → Lit × Nat
           let idx := Gen.Incoming.label_idx off
           let label := slice buf idx (Gen.Incoming.label_end idx length)
           if cfg.labelBad (Utf8.isAscii label) (Utf8.reencodedLen label) then (.err .decodeError, 1)
-          else
-            match lit cfg buf fuel (off + Gen.Incoming.label_advance length) with
-            | (.fin ls e, r) => (.fin (label :: ls) e, r + 1)
-            | (.ptr ls o b, r) => (.ptr (label :: ls) o b, r + 1)
-            | (.err e, r) => (.err e, r + 1)
+          else Lit.cons label (lit cfg buf fuel (off + Gen.Incoming.label_advance length))
         else if Gen.Incoming.is_unknown length then (.err .decodeError, 0)
         else (.ptr [] off length, 0)
     else (.err .decodeError, 0)
@@ -197,6 +199,12 @@ def readHeader (buf : Bytes) (st : St) : St × Hdr × Option PyExc :=
   | .error e => (st, h, some e)
   | .ok v => (st, { h with nad := v }, none)
 
+/-- the four fixed bytes of a question: type and class -/
+def readQFixed (buf : Bytes) (o : Nat) : Except PyExc (Nat × Nat) := do
+  let t ← two buf o (o + 1) Gen.Incoming.q_type
+  let c ← two buf (o + 2) (o + 3) Gen.Incoming.q_class
+  pure (t, c)
+
 /-- `_read_questions` (`incoming.py:238-252`): the questions appended before any exception stay -/
 def readQuestions (cfg : Cfg) (buf : Bytes) : (n : Nat) → St → St × List WQuestion × Option PyExc
   | 0, st => (st, [], none)
@@ -206,9 +214,7 @@ def readQuestions (cfg : Cfg) (buf : Bytes) : (n : Nat) → St → St × List WQ
     | (st, .ok name) =>
       let o := st.off
       let st := { st with off := st.off + Gen.Incoming.q_len }
-      match (do let t ← two buf o (o + 1) Gen.Incoming.q_type
-                let c ← two buf (o + 2) (o + 3) Gen.Incoming.q_class
-                pure (t, c) : Except PyExc (Nat × Nat)) with
+      match readQFixed buf o with
       | .error e => (st, [], some e)
       | .ok (t, c) =>
         let r := readQuestions cfg buf n st
@@ -256,6 +262,13 @@ def readBitmap (buf : Bytes) (end_ : Nat) : (fuel : Nat) → St → St × Except
 /-- `sorted(rdtypes)` in `DNSNsec.__init__` -/
 def sortTypes (ts : List Nat) : List Nat := ts.mergeSort (fun a b => decide (a ≤ b))
 
+/-- the three shorts of an SRV record -/
+def readSrvFixed (buf : Bytes) (o : Nat) : Except PyExc (Nat × Nat × Nat) := do
+  let p ← two buf o (o + 1) Gen.Incoming.srv_priority
+  let w ← two buf (o + 2) (o + 3) Gen.Incoming.srv_weight
+  let q ← two buf (o + 4) (o + 5) Gen.Incoming.srv_port
+  pure (p, w, q)
+
 /-- `_read_record` (`incoming.py:304-360`): `none` for a type the library skips -/
 def readRData (cfg : Cfg) (buf : Bytes) (t length : Nat) (st : St) : St × Except PyExc (Option WRData) :=
   if Gen.Incoming.is_a t then
@@ -271,10 +284,7 @@ def readRData (cfg : Cfg) (buf : Bytes) (t length : Nat) (st : St) : St × Excep
   else if Gen.Incoming.is_srv t then
     let o := st.off
     let st := { st with off := st.off + Gen.Incoming.srv_len }
-    match (do let p ← two buf o (o + 1) Gen.Incoming.srv_priority
-              let w ← two buf (o + 2) (o + 3) Gen.Incoming.srv_weight
-              let q ← two buf (o + 4) (o + 5) Gen.Incoming.srv_port
-              pure (p, w, q) : Except PyExc (Nat × Nat × Nat)) with
+    match readSrvFixed buf o with
     | .error e => (st, .error e)
     | .ok (p, w, q) =>
       match readName cfg buf st with
@@ -367,42 +377,40 @@ structure Run where
 def readOthers (cfg : Cfg) (buf : Bytes) (h : Hdr) (st : St) : St × List WRecord × Option PyExc :=
   readRecords cfg buf (Gen.Incoming.others_count h.nan h.nau h.nad) st
 
+/-- `_read_others` under a `try … except DECODE_EXCEPTIONS`, then what `answers()` returns.
+`inInit`: the `try` is the constructor's (eager path), so an uncaught exception leaves no object;
+otherwise it is the one in `answers()`.  `validOk` / `validCaught`: the `valid` flag of the object
+when nothing was raised / when the exception was caught. -/
+def others (cfg : Cfg) (buf : Bytes) (h : Hdr) (qs : List WQuestion) (st : St)
+    (validOk validCaught inInit : Bool) : Run :=
+  let r := readOthers cfg buf h st
+  match r.2.2 with
+  | none => ⟨.ok ⟨validOk, h, qs, r.2.1⟩, r.1⟩
+  | some e =>
+    if caught e then ⟨.ok ⟨validCaught, h, qs, r.2.1⟩, r.1⟩
+    else if inInit then ⟨.escapedInit e, r.1⟩
+    else ⟨.escapedAnswers ⟨validCaught, h, qs, r.2.1⟩ e, r.1⟩
+
 /-- `DNSIncoming(data)` then `.answers()` -/
 def parseWith (cfg : Cfg) (buf : Bytes) : Run :=
-  -- _initial_parse, under `except DECODE_EXCEPTIONS`
-  let (st, h, e) := readHeader buf {}
-  match e with
+  -- `_initial_parse` under `except DECODE_EXCEPTIONS` (`incoming.py:121-129,173-179`)
+  let hr := readHeader buf {}
+  match hr.2.2 with
   | some e =>
-    if caught e then
-      -- answers(): `_did_read_others` is false, `_read_others` runs with the counts read so far
-      let (st, rs, e2) := readOthers cfg buf h st
-      match e2 with
-      | some e2 => if caught e2 then ⟨.ok ⟨false, h, [], rs⟩, st⟩ else ⟨.escapedAnswers ⟨false, h, [], rs⟩ e2, st⟩
-      | none => ⟨.ok ⟨false, h, [], rs⟩, st⟩
-    else ⟨.escapedInit e, st⟩
+    -- invalid; `answers()` finds `_did_read_others` false and runs `_read_others` with the counts read so far
+    if caught e then others cfg buf hr.2.1 [] hr.1 false false false else ⟨.escapedInit e, hr.1⟩
   | none =>
-  let (st, qs, e) := readQuestions cfg buf h.nq st
-  match e with
-  | some e =>
-    if caught e then
-      let (st, rs, e2) := readOthers cfg buf h st
-      match e2 with
-      | some e2 => if caught e2 then ⟨.ok ⟨false, h, qs, rs⟩, st⟩ else ⟨.escapedAnswers ⟨false, h, qs, rs⟩ e2, st⟩
-      | none => ⟨.ok ⟨false, h, qs, rs⟩, st⟩
-    else ⟨.escapedInit e, st⟩
-  | none =>
-  if Gen.Incoming.eager_others h.nq then
-    -- `_read_others` inside the constructor's `try`; `_did_read_others` is set, `answers()` returns the list
-    let (st, rs, e) := readOthers cfg buf h st
-    match e with
-    | some e => if caught e then ⟨.ok ⟨false, h, qs, rs⟩, st⟩ else ⟨.escapedInit e, st⟩
-    | none => ⟨.ok ⟨true, h, qs, rs⟩, st⟩
-  else
-    -- valid; records are read lazily by `answers()` under its own `try`
-    let (st, rs, e) := readOthers cfg buf h st
-    match e with
-    | some e => if caught e then ⟨.ok ⟨true, h, qs, rs⟩, st⟩ else ⟨.escapedAnswers ⟨true, h, qs, rs⟩ e, st⟩
-    | none => ⟨.ok ⟨true, h, qs, rs⟩, st⟩
+    let qr := readQuestions cfg buf hr.2.1.nq hr.1
+    match qr.2.2 with
+    | some e =>
+      if caught e then others cfg buf hr.2.1 qr.2.1 qr.1 false false false else ⟨.escapedInit e, qr.1⟩
+    | none =>
+      if Gen.Incoming.eager_others hr.2.1.nq then
+        -- `_read_others` inside the constructor's `try`; `answers()` later just returns the list
+        others cfg buf hr.2.1 qr.2.1 qr.1 true false true
+      else
+        -- valid; the records are read lazily by `answers()` under its own `try`
+        others cfg buf hr.2.1 qr.2.1 qr.1 true true false
 
 /-- the decoder of the working tree -/
 def parse (buf : Bytes) : Run := parseWith libCfg buf
